@@ -39,6 +39,10 @@ func c05RunCase(c *Case) (string, []Fail) {
 		return c05BurstCase(c.Z)
 	case 4:
 		return c05OverflowCase(c.Z)
+	case 5:
+		return c05BacklogCase(c.Z)
+	case 6:
+		return c05StallCase(c.Z)
 	}
 	return "badcase", nil
 }
@@ -48,6 +52,20 @@ func c05Gen(g *Gen) {
 	for i := 0; i < g.Pick(6, 40); i++ {
 		g.Case(3, nil, []int64{int64(g.R.U64() & 0xffffff), 40, int64(20 + g.R.Intn(40))})
 		g.Count("burst-stop-cycles")
+	}
+	// restart with a large on-disk backlog in one queue directory (kind 5): Z = seed, chunk files
+	g.Case(5, nil, []int64{int64(g.R.U64() & 0xffffff), int64(1100 + g.R.Intn(60))})
+	g.Count("backlog-restart")
+	if g.Thorough() {
+		g.Case(5, nil, []int64{int64(g.R.U64() & 0xffffff), int64(2100 + g.R.Intn(200))})
+		g.Case(5, nil, []int64{int64(g.R.U64() & 0xffffff), int64(1024 + g.R.Intn(3))})
+		g.Count("backlog-restart")
+		g.Count("backlog-restart")
+	}
+	// a stalled pipeline worker: flushes time out (kind 6): Z = seed, batch size, batches that wait / time out
+	for i := 0; i < g.Pick(4, 30); i++ {
+		g.Case(6, nil, []int64{int64(g.R.U64() & 0xffffff), int64(1 + g.R.Intn(4)), int64(1 + g.R.Intn(3))})
+		g.Count("stalled-worker")
 	}
 	if g.Thorough() {
 		// queue overflow after a successful spill (known finding C05-dropped-chunk-file-kept): Z = seed, records
@@ -503,4 +521,211 @@ func c05OverflowCase(z []int64) (string, []Fail) {
 		}
 	}
 	return "ok:overflow", fails
+}
+
+// c05FirstDeliveryOrder checks, on a server log, that the first deliveries of every connection's records are in
+// arrival order and that the first receipts of chunks have increasing ids; records that never arrive are tolerated.
+func c05FirstDeliveryOrder(chunks []ffChunk, what string, fails *[]Fail) {
+	seen := map[e2eStamp]bool{}
+	last := map[int]int{}
+	seenChunk := map[string]bool{}
+	maxID := ""
+	for i := range chunks {
+		c := &chunks[i]
+		if !seenChunk[c.ID] {
+			seenChunk[c.ID] = true
+			if c.ID < maxID && len(*fails) < 4 {
+				*fails = append(*fails, Fail{"c05:late-first-receipt", fmt.Sprintf("%s: chunk %s is received for the first time (upstream connection %d, %d-th chunk received) after the newer chunk %s",
+					what, c.ID, c.Attempt, i+1, maxID)})
+			}
+			if c.ID > maxID {
+				maxID = c.ID
+			}
+		}
+		for _, st := range c.Stamps() {
+			if seen[st] {
+				continue
+			}
+			seen[st] = true
+			if l, ok := last[st.Conn]; ok && st.Seq < l && len(*fails) < 4 {
+				*fails = append(*fails, Fail{"c05:stream-order", fmt.Sprintf("%s: record %s is first delivered (upstream connection %d, chunk %s) after record %d.%d which arrived later on the same connection",
+					what, st, c.Attempt, c.ID, st.Conn, l)})
+			}
+			if l, ok := last[st.Conn]; !ok || st.Seq > l {
+				last[st.Conn] = st.Seq
+			}
+		}
+	}
+}
+
+// c05BacklogCase: the upstream is down while one connection sends n records of one pipeline (one record per chunk,
+// window 2): nearly every chunk is spilled; the agent is stopped with about n chunk files in ONE queue directory and
+// restarted with a healthy upstream.  The recovered chunks must be delivered in id (= arrival) order.
+func c05BacklogCase(z []int64) (string, []Fail) {
+	if len(z) != 2 || z[1] < 1 || z[1] > 20000 {
+		return "badcase", nil
+	}
+	seed, nrec := int(z[0]), int(z[1])
+	harness := func(err error) (string, []Fail) { return "err:harness", []Fail{{"c05:harness", err.Error()}} }
+	dir, err := os.MkdirTemp("", "c05g-")
+	if err != nil {
+		return harness(err)
+	}
+	defer os.RemoveAll(dir)
+	p := e2eDefaultParams()
+	p.ChunkMaxRecords = 1
+	p.MemLen = 2
+	p.QueueLen = 3 * nrec
+	p.BatchRecords = 64
+	p.PingMs = 50
+	p.RetryMs = 50
+	e2eApplyParams(p)
+	tr := newE2ETrace()
+	srv, err := newFakeFluentd("out1", tr)
+	if err != nil {
+		return harness(err)
+	}
+	defer srv.Close()
+	srv.SetTail(ffStep{Mode: ffRefuse})
+	ag, err := e2eNewAgent(e2eConfig{Dir: dir, Keys: []string{"app"}, Outputs: []e2eOutput{{Name: "out1", Addr: srv.Addr(), Mode: c01Modes(seed), MaxBufSize: "1GB"}}}, tr)
+	if err != nil {
+		return harness(err)
+	}
+	if err := ag.Start(); err != nil {
+		return harness(err)
+	}
+	var recs []e2eRecord
+	for i := 0; i < nrec; i++ {
+		recs = append(recs, e2eMakeRecord(e2eStamp{Conn: 0, Seq: i}, e2eRecordSpec{Class: rcGood, Pri: 14, App: "ka", Source: "x1", Host: "h1", Payload: "b", TimeIdx: i}))
+	}
+	cl, err := e2eDial(ag.Addr(), 0, tr)
+	if err != nil {
+		return harness(err)
+	}
+	_ = cl.Send(recs, []int{1 << 20})
+	if !ag.WaitInputSeen(nrec, 20*time.Second) {
+		return "err:input", []Fail{{"c05:harness", "input not consumed"}}
+	}
+	cl.Close(false)
+	if err := ag.Stop(); err != nil {
+		return "err:stop-hang", []Fail{{"c05:stop-hang", err.Error()}}
+	}
+	files := ag.QueueFiles("out1")
+	want := map[e2eStamp]bool{}
+	for _, qf := range files {
+		for _, st := range qf.stamps() {
+			want[st] = true
+		}
+	}
+	srv.SetTail(ffStep{Mode: ffHealthy})
+	if err := ag.Start(); err != nil {
+		return harness(err)
+	}
+	ok := srv.WaitAckedStamps(want, 30*time.Second)
+	if err := ag.Stop(); err != nil {
+		return "err:stop-hang", []Fail{{"c05:stop-hang", err.Error()}}
+	}
+	var fails []Fail
+	what := fmt.Sprintf("backlog seed %d: restart with %d chunk files in the queue directory of one pipeline", seed, len(files))
+	if len(files) < nrec-8 {
+		fails = append(fails, Fail{"c05:harness", fmt.Sprintf("%s: expected about %d files", what, nrec)})
+	}
+	if !ok {
+		fails = append(fails, Fail{"c05:stuck", what + ": not everything that was recovered has been delivered to the healthy upstream"})
+	}
+	c05FirstDeliveryOrder(srv.Chunks(), what, &fails)
+	return "ok:backlog", fails
+}
+
+// c05StallCase: a pipeline worker is blocked (harness latch transform) while its connection keeps sending records
+// of the same key set: the next batch waits in the pipeline channel (capacity 1), the following flushes time out
+// after defs.IntermediateChannelTimeout (100 ms here).  The stated hypothesis of C01 permits the LOSS of the
+// timed-out batches; what is delivered must still be in arrival order.
+func c05StallCase(z []int64) (string, []Fail) {
+	if len(z) != 3 || z[1] < 1 || z[1] > 64 || z[2] < 1 || z[2] > 16 {
+		return "badcase", nil
+	}
+	seed, batch, nlost := int(z[0]), int(z[1]), int(z[2])
+	harness := func(err error) (string, []Fail) { return "err:harness", []Fail{{"c05:harness", err.Error()}} }
+	dir, err := os.MkdirTemp("", "c05s-")
+	if err != nil {
+		return harness(err)
+	}
+	defer os.RemoveAll(dir)
+	p := e2eDefaultParams()
+	p.ChunkMaxRecords = 2
+	p.BatchRecords = batch
+	p.ChannelSize = 1
+	p.ChannelTimeoutMs = 100
+	p.InputFlushMs = 15
+	p.FlushIntervalMs = 10
+	p.PingMs = 50
+	e2eApplyParams(p)
+	tr := newE2ETrace()
+	srv, err := newFakeFluentd("out1", tr)
+	if err != nil {
+		return harness(err)
+	}
+	defer srv.Close()
+	ag, err := e2eNewAgent(e2eConfig{Dir: dir, Keys: []string{"app"}, Latch: true,
+		Outputs: []e2eOutput{{Name: "out1", Addr: srv.Addr(), Mode: c01Modes(seed), MaxBufSize: "1GB"}}}, tr)
+	if err != nil {
+		return harness(err)
+	}
+	hit := e2eLatchArm()
+	defer e2eLatchRelease()
+	if err := ag.Start(); err != nil {
+		return harness(err)
+	}
+	seq := 0
+	mk := func(payload string) e2eRecord {
+		r := e2eMakeRecord(e2eStamp{Conn: 0, Seq: seq}, e2eRecordSpec{Class: rcGood, Pri: 14, App: "ka", Source: "x1", Host: "h1", Payload: payload, TimeIdx: seq})
+		seq++
+		return r
+	}
+	cl, err := e2eDial(ag.Addr(), 0, tr)
+	if err != nil {
+		return harness(err)
+	}
+	// batch A: its first record stalls the worker
+	a := []e2eRecord{mk(e2eLatchMarker)}
+	for len(a) < batch {
+		a = append(a, mk("a"))
+	}
+	_ = cl.Send(a, nil)
+	select {
+	case <-hit:
+	case <-time.After(5 * time.Second):
+		return "err:latch", []Fail{{"c05:harness", "the worker never reached the latch"}}
+	}
+	// batch B fills the pipeline channel; the next nlost batches time out one after the other
+	var rest []e2eRecord
+	for i := 0; i < (1+nlost)*batch; i++ {
+		rest = append(rest, mk("w"))
+	}
+	_ = cl.Send(rest, nil)
+	// the input counters are published after the blocked flushes have returned, i.e. after the timeouts
+	if !ag.WaitInputSeen(seq, 10*time.Second) {
+		return "err:input", []Fail{{"c05:harness", "input not consumed while the worker was stalled"}}
+	}
+	e2eLatchRelease()
+	// more records of the same connection and key set
+	var more []e2eRecord
+	for i := 0; i < 2*batch+1; i++ {
+		more = append(more, mk("m"))
+	}
+	_ = cl.Send(more, nil)
+	lastStamp := more[len(more)-1].Stamp
+	delivered := srv.WaitAckedStamps(map[e2eStamp]bool{lastStamp: true}, 10*time.Second)
+	cl.Close(false)
+	if err := ag.Stop(); err != nil {
+		return "err:stop-hang", []Fail{{"c05:stop-hang", err.Error()}}
+	}
+	var fails []Fail
+	what := fmt.Sprintf("stalled worker seed %d (batches of %d records, %d flushes timed out after 100 ms)", seed, batch, nlost)
+	if !delivered {
+		fails = append(fails, Fail{"c05:stuck", what + ": the records sent after the stall were not delivered"})
+	}
+	c05FirstDeliveryOrder(srv.Chunks(), what, &fails)
+	return "ok:stall", fails
 }
